@@ -296,7 +296,20 @@ class C13(Property):
         eq = []
         for _ in range(rng.choice([0, 1, 1, 1, 2])):
             eq.append(sorted(rng.sample(range(len(NAMES)), rng.choice([2, 3, 4]))))
-        return {"kind": "equiv", "eq": eq, "hits": hits}
+        case = {"kind": "equiv", "eq": eq, "hits": hits}
+        if rng.random() < 0.4:
+            # further genes of the record: each gene competes on its own hits only
+            others, uid = [], 100
+            for _ in range(rng.choice([1, 2, 3])):
+                k = rng.choice([1, 2, 2, 3, 4])
+                g = self.rand_fhits(rng, k, uid, distinct=True)
+                if eq and rng.random() < 0.6:       # profiles of one equivalence group spread over the other genes
+                    for f, prof in zip(g, rng.sample(eq[0], min(len(eq[0]), len(g)))):
+                        f[1] = prof
+                others.append(g)
+                uid += 100
+            case["others"] = others
+        return case
 
     def rand_dock(self, rng: random.Random) -> Dict[str, Any]:
         length = rng.choice([40, 60, 99, 100, 101, 150, 300])
@@ -463,16 +476,28 @@ class C13(Property):
 
     def impl_equiv(self, case: Dict[str, Any]) -> Dict[str, Any]:
         from antismash.common.hmm_rule_parser import cluster_prediction as cp
-        hits = [_CPHit("g0", f) for f in case["hits"]]
-        by_id = {"g0": list(hits)}
-        results = list(hits)
         eq = [set(NAMES[p] for p in g) for g in case["eq"]]
-        try:
-            res, rid = cp.filter_results(results, by_id, eq)
-        except AssertionError:
+        genes = [case["hits"]] + case.get("others", [])
+
+        def run(gene_hits: List[List[List[int]]]) -> Optional[List[List[int]]]:
+            by_id = {f"g{i}": [_CPHit(f"g{i}", f) for f in g] for i, g in enumerate(gene_hits)}
+            results = [h for g in by_id.values() for h in g]
+            try:
+                res, rid = cp.filter_results(results, by_id, eq)
+            except AssertionError:
+                return None
+            outs = [[h.uid for h in rid[f"g{i}"]] for i in range(len(gene_hits))]
+            if [h.uid for h in res] != [u for o in outs for u in o]:
+                outs.append([-1])           # marks `results` disagreeing with `results_by_id`
+            return outs
+        outs = run(genes)
+        if outs is None:
             return {"out": None}
-        out = [h.uid for h in rid["g0"]]
-        return {"out": out, "results_same": [h.uid for h in res] == out}
+        obs = {"out": outs[0], "results_same": len(outs) == len(genes)}
+        if len(genes) > 1:
+            obs["genes"] = outs[:len(genes)]
+            obs["alone"] = [run([g]) for g in genes]
+        return obs
 
     # ------------------------------------------------------------------ driver + judge
     def driver_line(self, case: Dict[str, Any], obs: Dict[str, Any]) -> Optional[Dict[str, Any]]:
@@ -493,7 +518,7 @@ class C13(Property):
         elif kind == "multiple":
             line.update({"genes": case["genes"]})
         elif kind == "equiv":
-            line.update({"eq": case["eq"], "hits": case["hits"], "impl": obs.get("out")})
+            line.update({"eq": case["eq"], "hits": case["hits"], "impl": obs.get("out"), "others": case.get("others", [])})
         return line
 
     def judge(self, case: Dict[str, Any], obs: Dict[str, Any], drv: Optional[Dict[str, Any]]) -> Judgement:
@@ -619,12 +644,21 @@ class C13(Property):
         spec_ok = bool(drv["spec"]["ok"]) and obs["results_same"]
         corr = obs["out"] == drv["model"] or (tie and spec_ok)
         detail = ""
-        if not spec_ok:
+        if "genes" in obs:
+            # each gene of a record is filtered on its own hits only (theorem equivalence_filter_is_per_gene)
+            alone = [a[0] if a else None for a in obs["alone"]]
+            if obs["genes"] != alone:
+                spec_ok = False
+                detail = f"a gene's result depends on the other genes: together {obs['genes']}, each alone {alone}"
+            if not drv["tie_any"]:
+                corr = corr and obs["genes"] == drv["model_genes"]
+        if not spec_ok and not detail:
             detail = f"spec on implementation output {obs['out']}: {drv['spec']} results_same={obs['results_same']}"
-        elif not corr:
-            detail = f"model {drv['model']} vs implementation {obs['out']} (groups {drv['groups']})"
+        elif not corr and not detail:
+            detail = f"model {drv['model']} / {drv.get('model_genes')} vs implementation {obs} (groups {drv['groups']})"
         return Judgement(corr, spec_ok, nontrivial=bool(drv["nontrivial"]),
-                         tags=("equiv", "tie" if tie else "distinct", "eq%d" % len(case["eq"])), detail=detail)
+                         tags=("equiv", "tie" if tie else "distinct", "eq%d" % len(case["eq"]),
+                               "multi-gene" if "genes" in obs else "one-gene"), detail=detail)
 
     # ------------------------------------------------------------------ shrinking
     def shrink(self, case: Dict[str, Any]) -> Iterator[Dict[str, Any]]:
